@@ -16,7 +16,7 @@ from harness import common, front
 
 PID = 'C07'
 
-NAMES = ['x', 'y', 'z', 'p', 'q', 'xy', 'pq', 'a-b', 'a-b-c', 'n_1.v']     # hyphens and dots are legal in names of all syntaxes
+NAMES = ['x', 'y', 'z', 'p', 'q', 'xy', 'pq', 'a-b', 'a-b-c', 'n_1.v', 'if', 'in', 'end', 'call']     # hyphens and dots are legal in names of all syntaxes
 OLDELSE = ['x', 'p', 'xy', 'pq', 'y']
 EXPRS = ['p', 'p+1', 'q', 'not p', 'o.a', 'p > 3', 'f()', 'y()', 'x', "q+q", 'nope']
 SAFE_TEXT = ['a', ' b ', 'line\n', '\n', ' \n', 'Hello, world.', 'x=1;', 't(1)', '', '', ' ', '[k]', '\ttab', 'é!']
@@ -58,6 +58,10 @@ def gen_node(rng, depth):
     d = depth - 1
     if k == 'var':
         opts = rng.sample(VAR_OPTS, rng.choice((0, 0, 1, 2, 3)))
+        if rng.random() < 0.08:
+            # a variable called "var" can only be written without options: Var.__init__ drops a leading "var " from the
+            # argument text in every syntax, so '<dtml-var var lower>' inserts the variable "lower" (printer legality)
+            return ('var', ('n', 'var'), [])
         if any(o[0] == 'etc' for o in opts) and not any(o[0] == 'size' for o in opts):
             opts.append(('size', '2'))
         return ('var', rref(rng), opts)
@@ -178,6 +182,13 @@ def p_node(n, st):
         return n[1]
     if k == 'var':
         _, ref, opts = n
+        if ref == ('n', 'var'):
+            # a variable called "var": Var.__init__ drops a leading "var " from the arguments in every syntax, so the only
+            # spellings that denote the same program are the unquoted short ones
+            parts = ['var'] + p_opts(opts, st)
+            if st.syn == 'epfs':
+                return '%%(%s)s' % st.sep.join(parts)
+            return tag(st, 'var', parts, 'single')
         parts = [p_ref(ref, st)] + p_opts(opts, st)
         if st.syn == 'epfs':
             a = st.sep.join(parts)
@@ -292,12 +303,13 @@ def namespaces():
             {'x': Log('x', 'X<&'), 'y': Log('y', 0), 'z': Log('z', 'zed one two'), 'p': 5, 'q': 'quoted "text"\nline',
              's': [Obj(k=2, t='b'), Obj(k=1, t='a'), Obj(k=3, t='c')], 'm': [{'k': 1, 't': 'u'}], 'e0': [], 'o': Obj(a='A', k=9),
              'd': {'a': 'DA', 'x': 'DX'}, 'f': Log('f', 'F'), 'xy': 'XY', 'pq': Log('pq', 'PQ<>'), 'a-b': 'a b&c', 'a-b-c': Log('abc', 'ABC'),
-             'n_1.v': 'n 1'},
+             'n_1.v': 'n 1', 'var': 'v<var>&', 'if': 'IF', 'in': [1], 'end': 'END', 'call': Log('call', 'C'), 'lower': 'LOW', 'upper': 'UP',
+             'html_quote': 'HQ'},
             {'x': Log('x', ''), 'y': Log('y', 1), 'z': Log('z', None), 'p': 0, 'q': '',
-             's': [], 'm': [], 'e0': [], 'o': Obj(a=''), 'd': {}, 'f': Log('f', 0), 'xy': '', 'a-b': 0, 'a-b-c': Log('abc', ''), 'n_1.v': None},
+             's': [], 'm': [], 'e0': [], 'o': Obj(a=''), 'd': {}, 'f': Log('f', 0), 'xy': '', 'a-b': 0, 'a-b-c': Log('abc', ''), 'n_1.v': None, 'var': '', 'if': 0, 'in': [], 'end': None, 'call': Log('call', 0)},
             {'x': Log('x', KeyError('kx')), 'y': Log('y', [1]), 'z': Log('z', 12345678), 'p': 12345, 'q': 'A b',
              's': [Obj(k=1, t='a')], 'm': [{'k': 2, 't': 'v'}, {'k': 1, 't': 'w'}], 'e0': [], 'o': Obj(a=1), 'd': {'a': 1},
-             'f': Log('f', ValueError('vf')), 'xy': 'x y', 'pq': 1, 'a-b': 'A-B', 'a-b-c': Log('abc', KeyError('abc')), 'n_1.v': 'N'},
+             'f': Log('f', ValueError('vf')), 'xy': 'x y', 'pq': 1, 'a-b': 'A-B', 'a-b-c': Log('abc', KeyError('abc')), 'n_1.v': 'N', 'var': 5, 'if': 'x', 'in': 'str', 'end': 1.5, 'call': Log('call', ValueError('c'))},
         ][i]
     return log, mk
 
